@@ -68,9 +68,11 @@ class FnAlias:
                       and any(path_of(t) == path for t in _all_targets(self.cfg.nodes[d].ast))]
             if base_defs and not direct:
                 out = {r + "." + path.split(".", 1)[1] for r in self.roots_of_path(node, base)}
-                self._active.discard(key)
-                self._memo[key] = out
-                return out
+                if out:
+                    self._active.discard(key)
+                    self._memo[key] = out
+                    return out
+                # a fresh local (e.g. a shallow copy, whose attributes still alias the original's): decided by the general rules below
         for d in self.rd.reaching(node, path):
             dn = self.cfg.nodes[d]
             if dn.kind == "entry":
